@@ -506,6 +506,14 @@ def run_check(P, tier="quick", seed=0, replay=None):
         print("no violation on the current tree for this replay")
         return 0
 
+    # stale replay files of earlier runs of this property
+    import glob
+    for old in glob.glob(os.path.join(VERIF, "replays", prop.id + "-*.json")):
+        try:
+            os.remove(old)
+        except OSError:
+            pass
+
     # source fingerprint: a changed anchored function switches on the deep profile
     fp_now = fingerprint(prop.anchors) if prop.anchors else ""
     fp_ref = load_fingerprints().get(prop.id)
